@@ -63,6 +63,12 @@ SPECS = [
     dict(name="get_full_packet_number", group="Pn", file="tlexport/quic/quic_session.py", func="QuicSession.get_full_packet_number",
          params=[], ret="Bytes",
          places=[("quic_packet.isserver", "isserver", "Bool", "r"), ("quic_packet.packet_num", "packet_num", "Bytes", "r"),
+                 ("self.packet_number_server[PACKET_TYPE_MAP[quic_packet.packet_type]]", "pn_server", "Int", "r"),
+                 ("self.packet_number_client[PACKET_TYPE_MAP[quic_packet.packet_type]]", "pn_client", "Int", "r")]),
+    # the compare-and-store of the largest packet number, called by decrypt_packet after the AEAD check succeeded
+    dict(name="set_largest_packet_number", group="Pn", file="tlexport/quic/quic_session.py", func="QuicSession.set_largest_packet_number",
+         params=[("packet_number", "Bytes")], ret="None",
+         places=[("quic_packet.isserver", "isserver", "Bool", "r"),
                  ("self.packet_number_server[PACKET_TYPE_MAP[quic_packet.packet_type]]", "pn_server", "Int", "rw"),
                  ("self.packet_number_client[PACKET_TYPE_MAP[quic_packet.packet_type]]", "pn_client", "Int", "rw")]),
     # the tables the places of get_full_packet_number are read from: PACKET_TYPE_MAP and the two dicts of
@@ -453,9 +459,21 @@ def _cases(rng, n):
             k, v = call(qs.QuicSession.get_full_packet_number, me, NS(isserver=srv, packet_type="t", packet_num=pn))
         finally:
             qs.PACKET_TYPE_MAP = old
-        st = f"{{ pn_server := ({me.packet_number_server['k']} : Int), pn_client := ({me.packet_number_client['k']} : Int) }}"
-        out.append(("get_full_packet_number", f"{_bool(srv)} {_b(pn)} ({tabs[True]['k']} : Int) ({tabs[False]['k']} : Int)",
-                    f".ok {_b(v)} {st}" if k == "ok" else f".raised .{v} {st}"))
+        unchanged = me.packet_number_server == tabs[True] and me.packet_number_client == tabs[False]
+        args = f"{_bool(srv)} {_b(pn)} ({tabs[True]['k']} : Int) ({tabs[False]['k']} : Int)"
+        # (the translation of the repaired method has no state: a table write by the Python function is a mismatch)
+        out.append(("get_full_packet_number", args,
+                    (f".ok {_b(v)}" if k == "ok" else f".error .{v}") if unchanged else "(.error .key /- the Python function wrote a table -/)"))
+        if hasattr(qs.QuicSession, "set_largest_packet_number"):
+            num = v if (k == "ok" and rng.random() < 0.7) else rb(0, 9)
+            me = NS(packet_number_server=dict(tabs[True]), packet_number_client=dict(tabs[False]))
+            qs.PACKET_TYPE_MAP = {"t": "k"}
+            try:
+                call(qs.QuicSession.set_largest_packet_number, me, NS(isserver=srv, packet_type="t"), num)
+            finally:
+                qs.PACKET_TYPE_MAP = old
+            out.append(("set_largest_packet_number", f"{_b(num)} {_bool(srv)} ({tabs[True]['k']} : Int) ({tabs[False]['k']} : Int)",
+                        f"{{ pn_server := ({me.packet_number_server['k']} : Int), pn_client := ({me.packet_number_client['k']} : Int) }}"))
         # packet_isserver
         pool = [b"", b"\x01", b"\x01\x02", b"\x09"]
         sc, cc = [c for c in pool if rng.random() < 0.5], [c for c in pool if rng.random() < 0.5]
